@@ -212,6 +212,11 @@ class Check:
     def run(self, workers=None):
         sd = seed()
         args = [(self.pid, n, m, f, k, sd) for (n, m, f, k) in self.cases]
+        flt = os.environ.get("VERIF_CASES")  # debugging aid: regex filter on case names (never used by registered commands)
+        if flt:
+            import re
+
+            args = [a for a in args if re.search(flt, a[1])]
         workers = workers or min(16, max(1, len(args)))
         if workers == 1 or len(args) == 1:
             results = [_run_case(a) for a in args]
